@@ -475,6 +475,23 @@ extern void stoTakeCensus(AInt);
 # define freeAssert(s,n)	Nothing
 #endif
 
+#ifdef ALDOR_VERIF
+/*
+ * Verification hooks (off unless -DALDOR_VERIF): a simulator may decide at
+ * which allocations a collection runs, choose the fill bytes, and read
+ * counters of rarely taken branches.
+ */
+void		(*stoVerifAllocHook)(unsigned code, unsigned long nbytes) = 0;
+void		(*stoVerifFreeHook) (Pointer p, unsigned long nbytes, int how) = 0;
+unsigned char	stoVerifNewFill  = 0xAA;
+unsigned char	stoVerifFreeFill = 0xDD;
+unsigned long	stoVerifProbe[16];
+# undef  STO_NEW_CHAR
+# define STO_NEW_CHAR	stoVerifNewFill
+# undef  STO_FREE_CHAR
+# define STO_FREE_CHAR	stoVerifFreeFill
+#endif
+
 
 /*
  * Conditional code to keep track of storage.
@@ -874,6 +891,9 @@ pagesAdd(Length nBest, Length nMin)
 		e = (char *) ptrOff(b,nbytesGot);
 		if (b) break;
 		if (nRequest <= nMin) return 0;
+#ifdef ALDOR_VERIF
+		stoVerifProbe[5]++;
+#endif
 		nRequest = (nRequest >= 2*nMin) ? nRequest / 2 : nRequest - 1;
 	}
 
@@ -881,6 +901,9 @@ pagesAdd(Length nBest, Length nMin)
 	nForeign = ptrGE(b, heapEnd)   ? pgLen(ptrDiff(b, heapEnd))
 		 : ptrLE(e, heapStart) ? pgLen(ptrDiff(heapStart, e))
 		 : 0 ;
+#ifdef ALDOR_VERIF
+	if (nForeign) stoVerifProbe[7]++;
+#endif
 
 	/* Update page map. */
 	if (ptrGE(b, heapEnd)) {
@@ -892,6 +915,9 @@ pagesAdd(Length nBest, Length nMin)
 	else if (ptrLE(e, heapStart)) {
 		/* New store is below. */
 		heapStart = b;
+#ifdef ALDOR_VERIF
+		stoVerifProbe[6]++;
+#endif
 		ok = pgmapSlide(nRequest + nForeign,  PgForeign);
 		if (!ok) return 0;
 	}
@@ -938,6 +964,9 @@ pagesGet(Length nMin)
 
 		tot   = pgmapCountDomestic();
 		free0 = pgmapCountFree();
+#ifdef ALDOR_VERIF
+		stoVerifProbe[11]++;
+#endif
 		stoGc();
 		free1 = pgmapCountFree();
 
@@ -1276,6 +1305,9 @@ stoAllocInner(ULong nbytes, PgKind pgkind)
 	npages	= 1;
 	assert(nbytes <= npages*PgSize);
 	npcs  = (npages*PgSize)/nbytes;
+#ifdef ALDOR_VERIF
+	stoVerifProbe[12]++;
+#endif
 	pages = pagesGet(npages);
 
 	if (pages == 0) {
@@ -1451,6 +1483,10 @@ mxmemSplit(MxMem *curr, ULong nbytes)
 	MxMem	*r	     = (MxMem *) ptrOff((char *)curr, nbytes);
 	MxMem	*N	     = mxmemNext(curr);
 
+#ifdef ALDOR_VERIF
+	stoVerifProbe[2]++;
+#endif
+
 	r->isFree	     = curr->isFree;
 	r->isFirst	     = false;
 	r->isLast	     = curr->isLast;
@@ -1509,12 +1545,18 @@ piecePutMixed(MxMem *mi)
 	IF (next) {
 		mxmemUnlinkFromBTree(next, &mixedPieces);
 		mxmemMerge(mi, next);
+#ifdef ALDOR_VERIF
+		stoVerifProbe[0]++;
+#endif
 	}
 
 	IF (prev) {
 		mxmemUnlinkFromBTree(prev, &mixedPieces);
 		mxmemMerge(prev, mi);
 		mi = prev;
+#ifdef ALDOR_VERIF
+		stoVerifProbe[1]++;
+#endif
 	}
 
 	/* 3. Add piece to piece tree. */
@@ -1578,6 +1620,9 @@ pieceGetMixed(ULong nbytes)
 			}
 			else {
 				/* Reuse btree entry. */
+#ifdef ALDOR_VERIF
+				stoVerifProbe[4]++;
+#endif
 				btreeKey(bnode1, bix1) = r;
 				dll->nbytes = r;
 				dll->pieces = mt;
@@ -1595,6 +1640,9 @@ pieceGetMixed(ULong nbytes)
 		/* no piece in mixed-size free tree is big enough. */
 		IF (mixedFrontier && mixedFrontier->nbytesThis < nbytes) {
 			/* Frontier piece is too small. Thow it away. */
+#ifdef ALDOR_VERIF
+			stoVerifProbe[3]++;
+#endif
 			tmp = mixedFrontier;
 			mixedFrontier = 0;
 			piecePutMixed(tmp);
@@ -2434,6 +2482,9 @@ stoGcSweepFixed(Section *sect)
 				);
 #endif
 				sect->info[qmno] = QmInfoMake0(QmFreeFirst);
+#ifdef ALDOR_VERIF
+				if (stoVerifFreeHook) (*stoVerifFreeHook)((Pointer) pc, (unsigned long) qmsize, 1);
+#endif
 				fxmemCleanBody(pc, qmsize);
 				stoTally(stoBytesGc += qmsize);
 				nfixedTail->next = pc;
@@ -2466,6 +2517,9 @@ stoGcSweepFixed(Section *sect)
 		busyFixedStruct[qmsizeix] += qmbusy;
 	}
 	else
+#ifdef ALDOR_VERIF
+		stoVerifProbe[8]++,
+#endif
 		pagesPut((Page *) sect, sect->pgCount);
 	return swept;
 }
@@ -2509,6 +2563,9 @@ stoGcSweepMixed(Section *sect)
 				);
 #endif
 				sect->info[qmno]  = QmInfoMake0(QmFreeFirst);
+#ifdef ALDOR_VERIF
+				if (stoVerifFreeHook) (*stoVerifFreeHook)((Pointer) &pc->body.busy.data, (unsigned long) sz - MxMemHeadSize, 2);
+#endif
 				mxmemCleanBody(pc, sz);
 				stoTally(stoBytesGc += sz-MxMemHeadSize);
 				piecePutMixed(pc);
@@ -2529,6 +2586,9 @@ stoGcSweepMixed(Section *sect)
 				);
 #endif
 				sect->info[qmno]  = QmInfoMake0(QmFreeFirst);
+#ifdef ALDOR_VERIF
+				if (stoVerifFreeHook) (*stoVerifFreeHook)((Pointer) &pc->body.busy.data, (unsigned long) sz - MxMemHeadSize, 2);
+#endif
 				mxmemCleanBody(pc, sz);
 				stoTally(stoBytesGc += sz-MxMemHeadSize);
 				piecePutMixed(pc);
@@ -2536,6 +2596,9 @@ stoGcSweepMixed(Section *sect)
 
 				/* Handle if next piece was merged. */
 				if (QmInfoKind(sect->info[nqmno])==QmFollow) {
+#ifdef ALDOR_VERIF
+					stoVerifProbe[10]++;
+#endif
 					if (QmInfoMark(nqmtag)) {
 						int N = nqmno+nnq;
 						for (qi = nqmno; qi < N; qi++)
@@ -2568,6 +2631,9 @@ stoGcSweepMixed(Section *sect)
 	pfront = ptrCanon((char *) mixedFrontier);
 
 	if (!qmbusy && (pfront < pstart || pend <= pfront)) {
+#ifdef ALDOR_VERIF
+		stoVerifProbe[9]++;
+#endif
 		mxmemUnlinkFromBTree((MxMem *) data, &mixedPieces);
 		pagesPut((Page *) sect, sect->pgCount);
 	}
@@ -3301,6 +3367,10 @@ stoAlloc(unsigned code, ULong nbytes)
 	if (!stoIsInit && !stoInit())
 		return (*stoError)(StoErr_CantBuild);
 
+#ifdef ALDOR_VERIF
+	if (stoVerifAllocHook) (*stoVerifAllocHook)(code, (unsigned long) nbytes);
+#endif
+
 #ifdef USE_MEMORY_CLIMATE
 	code = getMemoryClimate();
 #endif
@@ -3400,6 +3470,9 @@ stoFree(Pointer p)
 		return;
 	}
 	stoWatchFree(p);
+#ifdef ALDOR_VERIF
+	if (stoVerifFreeHook) (*stoVerifFreeHook)(p, 0UL, 0);
+#endif
 
 	if (sect->isFixed) {
 		FxMem	*pc = (FxMem *) p;
